@@ -445,6 +445,219 @@ pub fn families(m: &Menus) -> Vec<Family> {
         });
     }
 
+    // ---- thorough only: the same skeletons with (nearly) full menus in every hole
+    if m.thorough {
+        // T1: flat pair, all route lists on the first resource, any guard on the second
+        let mut v = vec![];
+        for &p1 in &m.rp {
+            for &g1 in &m.g {
+                for rs1 in &m.rs {
+                    for &p2 in &m.rp {
+                        for &g2 in &m.g {
+                            v.push(Table {
+                                data: false,
+                                own_default: false,
+                                services: vec![r(p1, g1, rs1), r(p2, g2, ANY)],
+                            });
+                        }
+                    }
+                }
+            }
+        }
+        fams.push(Family {
+            name: "T1-flat-pair-full",
+            describe: "App[R(p1,g1,rs1), R(p2,g2,[any])], p1,p2 in RP, g1,g2 in G, rs1 in RS",
+            tables: v,
+        });
+
+        // T4: one scope, data x default chains with full prefix/guard/pattern menus
+        let mut v = vec![];
+        for &sp in &m.sp {
+            for &g in &m.g {
+                for &p in &m.rp {
+                    for bits in 0..16u8 {
+                        v.push(Table {
+                            data: bits & 1 != 0,
+                            own_default: bits & 2 != 0,
+                            services: vec![s(sp, g, bits & 4 != 0, bits & 8 != 0, vec![r(p, G::None, &[RK::Get])])],
+                        });
+                    }
+                }
+            }
+        }
+        fams.push(Family {
+            name: "T4-scope-data-default-full",
+            describe: "App(a0,d0)[S(sp,g,a1,d1)[R(p,none,[get])]], sp in SP, g in G, p in RP, a0,a1,d0,d1 in {n,y}",
+            tables: v,
+        });
+
+        // T7: nested scopes, guards on both levels, all prefixes, all inner patterns
+        let mut v = vec![];
+        for &sp1 in &m.sp {
+            for &sp2 in &m.sp {
+                for &g1 in &m.g {
+                    for &g2 in &m.g {
+                        for &p2 in &m.rp {
+                            v.push(Table {
+                                data: true,
+                                own_default: false,
+                                services: vec![
+                                    s(
+                                        sp1,
+                                        g1,
+                                        false,
+                                        true,
+                                        vec![
+                                            s(sp2, g2, true, false, vec![r(p2, G::None, ANY)]),
+                                            r(RP::Dyn, G::None, &[RK::Get]),
+                                        ],
+                                    ),
+                                    catch_all(),
+                                ],
+                            });
+                        }
+                    }
+                }
+            }
+        }
+        fams.push(Family {
+            name: "T7-nested-guards-full",
+            describe: "App(y,inh)[S1(sp1,g1,n,own)[S2(sp2,g2,y,inh)[R(p2)], R(/{x},none,[get])], CATCH], sp1,sp2 in SP, g1,g2 in G, p2 in RP",
+            tables: v,
+        });
+
+        // T8: nested data/default chains over all prefixes
+        let mut v = vec![];
+        for &sp1 in &m.sp {
+            for &sp2 in &m.sp {
+                for a in 0..8u8 {
+                    for d in 0..8u8 {
+                        v.push(Table {
+                            data: a & 1 != 0,
+                            own_default: d & 1 != 0,
+                            services: vec![s(
+                                sp1,
+                                G::None,
+                                a & 2 != 0,
+                                d & 2 != 0,
+                                vec![
+                                    s(sp2, G::None, a & 4 != 0, d & 4 != 0, vec![r(RP::Dyn, G::None, &[RK::Get])]),
+                                    r(RP::Tail, G::Post, &[RK::Post]),
+                                ],
+                            )],
+                        });
+                    }
+                }
+            }
+        }
+        fams.push(Family {
+            name: "T8-nested-data-default-full",
+            describe: "App(a0,d0)[S1(sp1,none,a1,d1)[S2(sp2,none,a2,d2)[R(/{x},none,[get])], R(/{t}*,Post,[post])]], sp1,sp2 in SP, a0..a2,d0..d2 in {n,y}",
+            tables: v,
+        });
+
+        // T9: three resources, six patterns, all guards, at app level and inside /{p} and "" scopes
+        let mut v = vec![];
+        let ps = [RP::Empty, RP::Slash, RP::A, RP::Dyn, RP::Digits, RP::Tail];
+        for &p1 in &ps {
+            for &p2 in &ps {
+                for &p3 in &ps {
+                    for &g1 in &m.g {
+                        for &g2 in &m.g {
+                            let three = vec![r(p1, g1, ANY), r(p2, g2, ANY), r(p3, G::None, &[RK::Get])];
+                            v.push(Table { data: false, own_default: false, services: three.clone() });
+                            v.push(Table {
+                                data: false,
+                                own_default: true,
+                                services: vec![s(SP::Dyn, G::None, true, false, three.clone())],
+                            });
+                            v.push(Table {
+                                data: true,
+                                own_default: false,
+                                services: vec![s(SP::Empty, G::None, false, true, three)],
+                            });
+                        }
+                    }
+                }
+            }
+        }
+        fams.push(Family {
+            name: "T9-three-resources-full",
+            describe: "X[R(p1,g1,[any]),R(p2,g2,[any]),R(p3,none,[get])] for X in {App, App(n,own)[S(/{p},none,y,inh)[..]], App(y,inh)[S(\"\",none,n,own)[..]]}, p in {\"\",/,/a,/{x},/{x:\\d+},/{t}*}, g1,g2 in G",
+            tables: v,
+        });
+
+        // T12: resource / nested scope / resource inside a scope, full menus
+        let mut v = vec![];
+        for &sp1 in &m.sp {
+            for &sp2 in &m.sp {
+                for &pa in &m.rp {
+                    for &ga in &[G::None, G::Post] {
+                        for &pb in &m.rp {
+                            for &pc in &[RP::Dyn, RP::Tail] {
+                                v.push(Table {
+                                    data: false,
+                                    own_default: true,
+                                    services: vec![s(
+                                        sp1,
+                                        G::None,
+                                        true,
+                                        false,
+                                        vec![
+                                            r(pa, ga, ANY),
+                                            s(sp2, G::None, false, true, vec![r(pb, G::None, &[RK::Get])]),
+                                            r(pc, G::None, ANY),
+                                        ],
+                                    )],
+                                });
+                            }
+                        }
+                    }
+                }
+            }
+        }
+        fams.push(Family {
+            name: "T12-mixed-in-scope-full",
+            describe: "App(n,own)[S1(sp1,none,y,inh)[R(pa,ga,[any]), S2(sp2,none,n,own)[R(pb,none,[get])], R(pc,none,[any])]], sp1,sp2 in SP, pa,pb in RP, ga in {none,Post}, pc in {/{x},/{t}*}",
+            tables: v,
+        });
+
+        // T13: two resources inside the inner scope of a nest, guard on the first
+        let mut v = vec![];
+        for &sp1 in &m.sp {
+            for &sp2 in &m.sp {
+                for &pa in &m.rp_small {
+                    for &ga in &m.g {
+                        for &pb in &m.rp_small {
+                            v.push(Table {
+                                data: false,
+                                own_default: false,
+                                services: vec![
+                                    s(
+                                        sp1,
+                                        G::None,
+                                        true,
+                                        true,
+                                        vec![
+                                            s(sp2, G::None, false, false, vec![r(pa, ga, ANY), r(pb, G::None, ANY)]),
+                                            r(RP::Dyn, G::None, ANY),
+                                        ],
+                                    ),
+                                    catch_all(),
+                                ],
+                            });
+                        }
+                    }
+                }
+            }
+        }
+        fams.push(Family {
+            name: "T13-nested-inner-pair",
+            describe: "App[S1(sp1,none,y,own)[S2(sp2,none,n,inh)[R(pa,ga,[any]),R(pb,none,[any])], R(/{x})], CATCH], sp1,sp2 in SP, pa,pb in RPsmall, ga in G",
+            tables: v,
+        });
+    }
+
     fams
 }
 
@@ -464,13 +677,16 @@ pub fn all_tables(fams: &[Family]) -> Vec<(usize, Table)> {
 }
 
 pub const TOKENS: [&str; 8] = ["a", "b", "s", "1", "", "a%2Fb", "%61", "%25"];
+/// thorough adds a lower-case protected escape and the third protected escape of the router
+pub const TOKENS_THOROUGH: [&str; 10] = ["a", "b", "s", "1", "", "a%2Fb", "%61", "%25", "%2f", "%2B"];
 /// tokens for the additional 4-segment paths (needed to reach resources below two consuming scopes)
 pub const TOKENS_DEEP: [&str; 3] = ["a", "s", "1"];
 
-/// Request paths: every path of 1..=3 segments over TOKENS, each with and without a trailing slash,
+/// Request paths: every path of 1..=3 segments over TOKENS (thorough: TOKENS_THOROUGH), each with and without a trailing slash,
 /// plus every 4-segment path over TOKENS_DEEP with and without trailing slash. Deduplicated
 /// (`/a/` arises both as [a, ""] and as [a] + trailing slash), simplest first.
-pub fn paths() -> Vec<String> {
+pub fn paths(thorough: bool) -> Vec<String> {
+    let tokens: &[&str] = if thorough { &TOKENS_THOROUGH } else { &TOKENS };
     let mut out: Vec<String> = vec![];
     let mut seen = HashSet::new();
     let mut push = |p: String, out: &mut Vec<String>| {
@@ -495,7 +711,7 @@ pub fn paths() -> Vec<String> {
             push(p.clone(), &mut out);
             push(format!("{p}/"), &mut out);
         };
-        rec(&TOKENS, n, &mut vec![], &mut f);
+        rec(tokens, n, &mut vec![], &mut f);
     }
     let mut f = |segs: &[String]| {
         let p = format!("/{}", segs.join("/"));
